@@ -74,5 +74,16 @@ CLAIMS['C44'] = {
   'note': _TB + 'datetime is replaced by an abstract calendar (constructor range checks as in CPython, symbolic date arithmetic); separator structures are enumerated (9 + 8 shapes). Two defects found and fixed (b16e0aff).',
 }
 
+CLAIMS['C15'] = {
+  'text': 'Proof: converter.protect / converter.unprotect are mutually inverse on every byte string of lengths 0,1,2,142..145 and 290 (all bytes symbolic; every one of the 143 key-schedule indices covered twice including the wrap-around), '
+          'decided by the bit-vector back end; Program.save followed by Program.load in protected and tokenised mode restores byte-identical program memory, position and flags.',
+  'note': _TB + 'Streams are io.BytesIO stand-ins; the disk layer EOF byte is supplied by the harness; rebuild_line_dict stubbed (C13). ASCII format and the command-line converter are not covered. One defect found and fixed (empty protected stream crashed).',
+}
+CLAIMS['C16'] = {
+  'text': 'Proof of guard obligations: with the program protected (and not in run mode for memory access) Program.store_line/list_lines/save(B,A)/edit/merge, Memory.peek_/poke_/bload_/bsave_ and CHAIN MERGE raise Illegal function call before any collaborator '
+          '(files, lister, tokeniser, console, code stream, memory) is touched - EDIT shows the digits of the line number only; the protection flag byte can be cleared only through the guarded POKE path with allow_protect.',
+  'note': _TB + 'Collaborators are recording spies; entry points are the list read off the code - a new disclosing entry point would not be seen; behavioural equivalence of the protected program is not covered.',
+}
+
 NOT_APPLICABLE = {
 }
